@@ -343,7 +343,15 @@ def c_cstr(s):
 
 
 def c_allowed(a):
-    return "None" if a is None else "(Some %s)" % c_list([c_cstr(x) for x in a])
+    return "(ROwn %s)" % ("None" if a is None else "(Some %s)" % c_list([c_cstr(x) for x in a]))
+
+
+# the JWSRegistry instances every world shares between its calls (allow-list); index = RShared i of the model
+STD_REGS = [None, ["HS256", "ES256", "HS384", "RS256", "EdDSA"], ["HS384"]]
+
+
+def c_regref(reg, allowed):
+    return "(RShared %d)" % reg if reg is not None else c_allowed(allowed)
 
 
 def coq_of(op, r):
@@ -414,26 +422,30 @@ def mk_ops(tokens):
     def obj(env, ref):
         return env.keys[ref[1]] if ref[0] == "k" else env.sets[ref[1]]
 
-    def sign(ref, alg, kidv=None, allowed=None, payload=b"payload"):
+    def sign(ref, alg, kidv=None, allowed=None, payload=b"payload", reg=None):
         def fn(env):
             hdr = {"alg": alg}
             if kidv is not None:
                 hdr["kid"] = kidv
-            tok = jws.serialize_compact(hdr, payload, obj(env, ref), algorithms=allowed)
+            kw = {} if reg is None else {"registry": env.regs[reg]}      # with registry= given, algorithms= is ignored by jws
+            tok = jws.serialize_compact(hdr, payload, obj(env, ref), algorithms=allowed, **kw)
             env.tokens.append((tok, alg, payload, hdr.get("kid")))
             return hdr.get("kid")
-        return Op("sign(%s,%s,%r)" % (ref, alg, kidv), "CJws true %s %s %s %s None" % (kr(ref), c_ostr(kidv), c_cstr(alg), c_allowed(allowed)), fn,
+        tag = "" if reg is None else ",reg=%d,algs=%r" % (reg, allowed)
+        return Op("sign(%s,%s,%r%s)" % (ref, alg, kidv, tag), "CJws true %s %s %s %s None" % (kr(ref), c_ostr(kidv), c_cstr(alg), c_regref(reg, allowed)), fn,
                   rand=(ref[0] == "s" and not kidv), kidsens=(ref[0] == "s" and bool(kidv)))
 
-    def verify(ref, tokname, allowed=None):
+    def verify(ref, tokname, allowed=None, reg=None):
         tok, alg, payload, kidv = tokens[tokname]
 
         def fn(env):
-            o = jws.deserialize_compact(tok, obj(env, ref), algorithms=allowed)
+            kw = {} if reg is None else {"registry": env.regs[reg]}
+            o = jws.deserialize_compact(tok, obj(env, ref), algorithms=allowed, **kw)
             if o.payload != payload:
                 raise RuntimeError("verified payload differs")
             return o.headers().get("kid")
-        o = Op("verify(%s,%s)" % (ref, tokname), "CJws false %s %s %s %s" % (kr(ref), c_ostr(kidv), c_cstr(alg), c_allowed(allowed)), fn,
+        tag = "" if reg is None else ",reg=%d,algs=%r" % (reg, allowed)
+        o = Op("verify(%s,%s%s)" % (ref, tokname, tag), "CJws false %s %s %s %s" % (kr(ref), c_ostr(kidv), c_cstr(alg), c_regref(reg, allowed)), fn,
                kidsens=(ref[0] == "s"))
         o.crypto = True
         return o
@@ -485,6 +497,8 @@ class Env:
             self.sets.append(s)
         self.tokens = []
         self.jwe_tokens = []
+        from joserfc.jws import JWSRegistry
+        self.regs = [JWSRegistry(algorithms=a) for a in STD_REGS]
 
 
 class Shim:
@@ -684,6 +698,9 @@ def pairs_quick(O):
         ("params", [O["sign"](K(0), "HS256"), O["as_dict"](1)]),
         ("params", [O["ensure"](1), O["as_dict"](2)]),
         ("jwk", [O["sign"](S(0), "ES256"), O["as_dict"](1, False)]),
+        ("oct", [O["verify"](K(0), "hs-nokid", allowed=["HS384"], reg=0), O["verify"](K(0), "hs-nokid", reg=0)]),
+        ("oct", [O["sign"](K(0), "HS384", allowed=["HS256"], reg=2), O["sign"](K(0), "HS256", reg=2)]),
+        ("oct-set", [O["verify"](S(0), "hs-tp", allowed=["HS512"], reg=1), O["sign"](S(0), "HS256", reg=1)]),
         ("oct16-lazyset", [O["jwe_enc"](S(0), "A128KW", "A128GCM"), O["as_dict"](0, False)]),
         ("oct16", [O["jwe_enc"](K(0), "A128KW", "A128CBC-HS256"), O["jwe_dec"](K(0), "kw-nokid")]),
         ("oct16-set", [O["jwe_dec"](S(0), "kw-tp"), O["jwe_enc"](S(0), "A128KW", "A128GCM")]),
@@ -736,7 +753,8 @@ class Runner:
         return wname.replace("-", "_")
 
     def preamble(self):
-        out = []
+        out = ["Definition regs_std : list creg := %s." % c_list(
+            ["{| cr_allowed := %s; cr_strict := true |}" % ("None" if a is None else "(Some %s)" % c_list([c_cstr(x) for x in a])) for a in STD_REGS])]
         for wname, world in self.worlds.items():
             wid = self.wid(wname)
             out.append("Definition im_%s : imm := %s." % (wid, c_list([c_kimm(self.kimm(n)) for n in world["keynames"]])))
@@ -877,7 +895,7 @@ class Runner:
         world = self.worlds[wname]
         wid = self.wid(wname)
         setup = c_list(["CNewSet %s" % c_list(["%d%%nat" % i for i in m]) for m, lazy in world["sets"] if not lazy])
-        term = "CSched %s im_%s pre_%s sets_%s %s %s %s %s %s %s %s %s" % (
+        term = "CSched %s im_%s pre_%s sets_%s regs_std %s %s %s %s %s %s %s %s" % (
             c_bool(variant == "fixed"), wid, wid, wid, c_list(["%d%%nat" % p for p in picks]), setup,
             c_list([coq_of(op, r) for op, r in zip(ops, res)]), c_cstr("".join(str(t) for t, _ in trace)),
             c_cstr(" ".join((lab if '"' not in lab and " " not in lab else "?") for _, lab in trace)),
@@ -982,6 +1000,30 @@ def detect_variant(runner):
     return "fixed" if "self._dict_value.update(data)" in src and "self._dict_value = data" not in src else "orig"
 
 
+def env_snapshot(env):
+    """every object the harness created and shares between the calls of a history: keys (everything but the two lazy
+    slots), key sets (which keys, in which order), registries (allow-list, header table, flags)"""
+    snap = {}
+    for i, k in enumerate(env.keys):
+        snap["key[%d]" % i] = {a: deep_fingerprint(v) for a, v in vars(k).items() if a not in ("_dict_value", "public_key")}
+        snap["key[%d]" % i]["<dict minus kid>"] = deep_fingerprint({a: v for a, v in k._dict_value.items() if a != "kid"}) if k._dict_value else None
+    for i, ks in enumerate(env.sets):
+        snap["keyset[%d]" % i] = dict({a: deep_fingerprint(v) for a, v in vars(ks).items() if a != "keys"}, keys=tuple(id(x) for x in ks.keys))
+    for i, r in enumerate(env.regs):
+        snap["registry[%d]" % i] = {a: deep_fingerprint(v) for a, v in vars(r).items()}
+    return snap
+
+
+def env_diff(a, b):
+    out = []
+    for name in a:
+        for attr in set(a[name]) | set(b[name]):
+            x, y = a[name].get(attr, "<absent>"), b[name].get(attr, "<absent>")
+            if x != y and not (attr == "<dict minus kid>" and x is None):      # the lazy fill of _dict_value is the documented footprint
+                out.append((name, attr))
+    return out
+
+
 def sequential_histories(runner, ctx, variant):
     """random call histories on ONE set of shared objects; every call compared with the same call on
     fresh objects; frozen-state snapshot of all singletons / tables / classes around every call"""
@@ -1024,11 +1066,11 @@ def sequential_histories(runner, ctx, variant):
                 a = alg if ref[0] == "k" else ctx.rng.choice(["HS256", "ES256"])
                 if a == "HS256":
                     a = ctx.rng.choice(["HS256", "HS256", "HS384", "HS512"])      # not recommended unless allowed by the call
-                ops.append(O["sign"](ref, a, allowed=ctx.rng.choice([None, [a], [a], ["HS512"]]),
+                ops.append(O["sign"](ref, a, allowed=ctx.rng.choice([None, [a], [a], ["HS512"], []]), reg=ctx.rng.choice([None, None, 0, 1, 2]),
                                      kidv=ctx.rng.choice([None, None, "k2", ""]) if ref[0] == "s" else None))
             elif c in (9, 10):
                 tn = ctx.rng.choice(sorted(t for t in runner.tokens if not t.startswith(("kw-", "dir"))))
-                ops.append(O["verify"](S(0) if ns and ctx.rng.random() < 0.5 else K(k), tn, allowed=ctx.rng.choice([None, [runner.tokens[tn][1]]])))
+                ops.append(O["verify"](S(0) if ns and ctx.rng.random() < 0.5 else K(k), tn, allowed=ctx.rng.choice([None, [runner.tokens[tn][1]], ["HS384"], []]), reg=ctx.rng.choice([None, None, 0, 1, 2])))
             else:
                 ops.append(O["as_dict"](k, False))
         env = Env(world)
@@ -1039,11 +1081,17 @@ def sequential_histories(runner, ctx, variant):
         try:
             for idx, op in enumerate(ops):
                 before = take_snapshot(objs)
+                ebefore = env_snapshot(env)
                 try:
                     r = norm(("ok", op.fn(env)))
                 except BaseException as e:   # noqa
                     r = norm(("err", e))
                 after = take_snapshot(objs)
+                ed = env_diff(ebefore, env_snapshot(env))
+                if ed:
+                    ctx.violation({"kind": "shared-object-written", "object": "caller " + ed[0][0].split("[")[0]},
+                                  "the call %s changed a shared object of the caller: %r (history %r in world %s)" % (op.name, ed[:4], [o.name for o in ops[:idx + 1]], wname),
+                                  {"kind": "history", "world": wname, "ops": [o.name for o in ops[:idx + 1]]})
                 results.append(r)
                 dist[op.name.split("(")[0]] = dist.get(op.name.split("(")[0], 0) + 1
                 ctx.note_case(("seq", wname, h, idx, op.name))
@@ -1077,7 +1125,7 @@ def sequential_histories(runner, ctx, variant):
         wid = runner.wid(wname)
         setup = ["CNewSet %s" % c_list(["%d%%nat" % i for i in m]) for m, lazy in world["sets"] if not lazy]
         setup_res = ["(Ok %s)" % c_pv([env.keys[i]._dict_value.get("kid") for i in m]) for m, lazy in world["sets"] if not lazy]
-        runner.cases.append("CSeq %s im_%s pre_%s sets_%s %s %s %s %s %s" % (
+        runner.cases.append("CSeq %s im_%s pre_%s sets_%s regs_std %s %s %s %s %s" % (
             c_bool(variant == "fixed"), wid, wid, wid, c_list(["%d%%nat" % p for p in shim.picks]),
             c_list(setup + [coq_of(op, r) for op, r in zip(ops, results)]), c_list(setup_res + [c_result(r) for r in results]),
             c_list(["(%s, %s, %s)" % tuple(c_bool(x) for x in key_final(k)) for k in env.keys]), c_N(len(shim.picks))))
@@ -1153,6 +1201,9 @@ def make_registry(kind, r):
     return JWSRegistry(header_registry=hr, algorithms=r.get("algorithms"), strict_check_header=r.get("strict", True))
 
 
+_mk_registry = make_registry
+
+
 def verdict(f):
     try:
         return ["ok", f()]
@@ -1160,26 +1211,54 @@ def verdict(f):
         return ["err", exn_class(e)]
 
 
-def exec_spec(spec, specs):
-    """run one call on FRESH key objects; -> {"v": verdict, "token": produced token or None}"""
-    from joserfc import jws, jwe
+def build_shared():
+    """the registry instances the harness creates ONCE and shares between all calls of a history / schedule set"""
+    return {(kind, i): make_registry(kind, r) for kind, regs in REGS.items() for i, r in enumerate(regs)}
+
+
+def exec_spec(spec, specs, shared=None):
+    """run one call on FRESH key objects; -> {"v": verdict, "token": produced token or None}.
+    spec["regi"] = index into REGS[kind]: the SHARED instance when `shared` is given (this process), a fresh
+    equal one otherwise (pristine process); spec["algs"] is passed as algorithms= in addition to registry="""
+    from joserfc import jws, jwe, jwt
     from joserfc.rfc7797 import compact as c7797
     op = spec["op"]
     if op == "batch":
         return {"v": ["ok", "batch"], "token": None, "results": [exec_spec(x, specs)["v"] for x in spec["specs"]]}
     key = specs[spec["key"]][0]()
     out = {"v": None, "token": None}
+
+    def make_registry(kind, r, _mk=_mk_registry):      # shadows the module function inside this call only
+        if "regi" in spec:
+            i = spec["regi"]
+            return shared[(kind, i)] if shared is not None else _mk(kind, REGS[kind][i])
+        return _mk(kind, r)
+    akw = {} if spec.get("algs") is None else {"algorithms": spec["algs"]}
+    if op == "jwt_encode":
+        kind = spec["rkind"]
+        reg = make_registry(kind, spec.get("reg"))
+        hdr = dict({"alg": spec["alg"]}, **({"enc": spec["enc"]} if kind == "jwe" else {}))
+        r = verdict(lambda: jwt.encode(hdr, {"sub": spec["pt"]}, key, registry=reg, **akw))
+        if r[0] == "ok":
+            out["token"] = r[1]
+            r = ["ok", "token"]
+        out["v"] = r
+        return out
+    if op == "jwt_decode":
+        reg = make_registry(spec["rkind"], spec.get("reg"))
+        out["v"] = verdict(lambda: jwt.decode(spec["token"], key, registry=reg, **akw).claims.get("sub"))
+        return out
     if op == "jwe_enc":
         hdr = dict({"alg": spec["alg"], "enc": spec["enc"]}, **spec.get("extra", {}))
         reg = make_registry("jwe", spec.get("reg"))
-        r = verdict(lambda: jwe.encrypt_compact(hdr, spec["pt"].encode(), key, registry=reg))
+        r = verdict(lambda: jwe.encrypt_compact(hdr, spec["pt"].encode(), key, registry=reg, **akw))
         if r[0] == "ok":
             out["token"] = r[1]
             r = ["ok", "token"]
         out["v"] = r
     elif op == "jwe_dec":
         reg = make_registry("jwe", spec.get("reg"))
-        out["v"] = verdict(lambda: jwe.decrypt_compact(spec["token"], key, registry=reg).plaintext.decode("latin1"))
+        out["v"] = verdict(lambda: jwe.decrypt_compact(spec["token"], key, registry=reg, **akw).plaintext.decode("latin1"))
     elif op == "jwe_enc_json":
         from joserfc.jwe import GeneralJSONEncryption
         reg = make_registry("jwe", spec.get("reg"))
@@ -1189,7 +1268,7 @@ def exec_spec(spec, specs):
             obj = GeneralJSONEncryption(dict({"enc": spec["enc"]}, **spec.get("extra", {})), spec["pt"].encode())
             obj.add_recipient({"alg": spec["alg"]}, key)
             obj.add_recipient({"alg": spec["alg2"]}, key2)
-            return jwe.encrypt_json(obj, None, registry=reg)
+            return jwe.encrypt_json(obj, None, registry=reg, **akw)
         r = verdict(f)
         if r[0] == "ok":
             out["token"] = r[1]
@@ -1197,16 +1276,16 @@ def exec_spec(spec, specs):
         out["v"] = r
     elif op == "jwe_dec_json":
         reg = make_registry("jwe", spec.get("reg"))
-        out["v"] = verdict(lambda: jwe.decrypt_json(spec["token"], key, registry=reg).plaintext.decode("latin1"))
+        out["v"] = verdict(lambda: jwe.decrypt_json(spec["token"], key, registry=reg, **akw).plaintext.decode("latin1"))
     elif op == "jws_sign":
         hdr = dict({"alg": spec["alg"]}, **spec.get("extra", {}))
         if spec.get("b64") is not None:
             hdr.update({"b64": spec["b64"], "crit": ["b64"]})
             reg = make_registry("jws7797", spec.get("reg"))
-            r = verdict(lambda: c7797.serialize_compact(hdr, spec["pt"].encode(), key, registry=reg))
+            r = verdict(lambda: c7797.serialize_compact(hdr, spec["pt"].encode(), key, registry=reg, **akw))
         else:
             reg = make_registry("jws", spec.get("reg"))
-            r = verdict(lambda: jws.serialize_compact(hdr, spec["pt"].encode(), key, registry=reg))
+            r = verdict(lambda: jws.serialize_compact(hdr, spec["pt"].encode(), key, registry=reg, **akw))
         if r[0] == "ok":
             out["token"] = r[1]
             r = ["ok", "token"]
@@ -1214,10 +1293,10 @@ def exec_spec(spec, specs):
     elif op == "jws_verify":
         if spec.get("b64") is not None:
             reg = make_registry("jws7797", spec.get("reg"))
-            out["v"] = verdict(lambda: c7797.deserialize_compact(spec["token"], key, registry=reg).payload.decode("latin1"))
+            out["v"] = verdict(lambda: c7797.deserialize_compact(spec["token"], key, registry=reg, **akw).payload.decode("latin1"))
         else:
             reg = make_registry("jws", spec.get("reg"))
-            out["v"] = verdict(lambda: jws.deserialize_compact(spec["token"], key, registry=reg).payload.decode("latin1"))
+            out["v"] = verdict(lambda: jws.deserialize_compact(spec["token"], key, registry=reg, **akw).payload.decode("latin1"))
     else:
         raise RuntimeError("unknown spec op %r" % op)
     return out
@@ -1227,6 +1306,8 @@ def open_spec(spec, token):
     """the spec that must accept a token produced by `spec` (permissive registry: same header names, the algs allowed)"""
     reg = {"headers": ["custom", "other"], "strict": False, "algorithms": [a for a in (spec.get("alg"), spec.get("alg2"), spec.get("enc")) if a]}
     peer = {"rsapub": "rsa", "ec0pub": "ec0", "ec1pub": "ec1"}.get(spec["key"], spec["key"])
+    if spec["op"] == "jwt_encode":
+        return {"op": "jwt_decode", "key": peer, "token": token, "reg": reg, "rkind": spec["rkind"]}
     if spec["op"] == "jwe_enc":
         return {"op": "jwe_dec", "key": peer, "token": token, "reg": reg}
     if spec["op"] == "jwe_enc_json":
@@ -1287,7 +1368,7 @@ class Pristine:
 
     def call(self, spec):
         k = json.dumps(spec, sort_keys=True)
-        if k not in self.cache or spec["op"] in ("jwe_enc", "jwe_enc_json", "jws_sign", "batch"):
+        if k not in self.cache or spec["op"] in ("jwe_enc", "jwe_enc_json", "jws_sign", "jwt_encode", "batch"):
             self.fout.write(k.encode() + b"\n")
             self.fout.flush()
             out = json.loads(self.fin.readline())
@@ -1364,6 +1445,20 @@ REGS_JWE = [None, {"headers": ["custom"]}, {"headers": ["custom"], "strict": Fal
             {"strict": False, "verify_all": False}]
 REGS_JWS = [None, {"headers": ["custom"]}, {"headers": ["custom"], "strict": False}, {"algorithms": ["HS256", "HS384", "ES256", "EdDSA", "RS256", "PS256"]},
             {"headers": ["other"], "algorithms": ["HS256", "ES256"]}]
+REGS = {"jwe": REGS_JWE, "jws": REGS_JWS, "jws7797": REGS_JWS}
+ALGS_SHAPES = [None, None, "own", "own", ["HS384"], [], "own+", ("A256GCM", "HS512")]      # shapes of the algorithms= argument
+
+
+def algs_arg(rng, spec):
+    sh = rng.choice(ALGS_SHAPES)
+    own = [a for a in (spec.get("alg"), spec.get("alg2"), spec.get("enc")) if a]
+    if sh == "own":
+        return own
+    if sh == "own+":
+        return own + ["HS384", "A192KW"]
+    return list(sh) if sh is not None else None
+
+
 JWE_ALGS = [("A128GCMKW", "oct16_0"), ("PBES2-HS256+A128KW", "oct0"), ("ECDH-ES", "ec0pub"), ("ECDH-ES+A128KW", "ec0pub"),
             ("dir", None), ("A128KW", "oct16_0"), ("RSA-OAEP", "rsapub")]
 JWE_ENCS = ["A128CBC-HS256", "A128GCM", "A256GCM", "C20P"]
@@ -1372,54 +1467,79 @@ JWS_ALGS = [("HS256", "oct0"), ("HS384", "oct1"), ("ES256", "ec0"), ("EdDSA", "o
 
 
 def registry_histories(ctx, specs, pristine):
-    """ONE long history of JWE / JWS calls through several registry instances; deep snapshot of every shared
-    joserfc object around EVERY call; every verdict compared with the same call in the pristine process"""
+    """ONE long history of JWE / JWS / JWT calls through registry instances that the harness creates ONCE and shares
+    (registry= alone, algorithms= alone, both, neither; algorithms lists of every shape); deep snapshot of every shared
+    joserfc object AND of every shared caller registry around EVERY call; every verdict compared with the same call
+    in the pristine process (which builds an equal, fresh registry)"""
     rng = ctx.rng
+    shared = build_shared()
     objs = deep_objects()
+    for (kind, i), r in shared.items():
+        if r is not None:
+            objs["caller-registry %s[%d]" % (kind, i)] = r
     before = deep_snapshot(objs)
     pool = []          # (spec that opens it)
     dist = {}
     hist = []
-    n = ctx.scale(140, 1500)
-    # every alg family with more_header_registry first meets a registry WITHOUT the caller header, then one WITH it (and the
-    # other way round for the second half of the families): the systematic part; the rest is random
+    n = ctx.scale(170, 1800)
     planned = []
     for i, (alg, kname) in enumerate(JWE_ALGS):
         enc = JWE_ENCS[i % len(JWE_ENCS)]
         k = kname or DIR_KEYS[enc][0]
-        regs = [REGS_JWE[4], REGS_JWE[5]] if i % 2 == 0 else [REGS_JWE[5], REGS_JWE[4]]
-        for rg in regs:
-            planned.append({"op": "jwe_enc", "alg": alg, "enc": enc, "key": k, "pt": "planned", "reg": rg, "extra": {"custom": "v"}})
+        for ri in ([4, 5] if i % 2 == 0 else [5, 4]):
+            planned.append({"op": "jwe_enc", "alg": alg, "enc": enc, "key": k, "pt": "planned", "regi": ri, "extra": {"custom": "v"}})
+    # every entry point once with BOTH registry= and algorithms= on a shared registry, then with registry= alone
+    for op, kind, ri, a1, a2, k in [("jws_sign", "jws", 1, "HS384", "HS256", "oct0"), ("jwt_encode", "jws", 2, "HS384", "HS256", "oct0"),
+                                     ("jwe_enc", "jwe", 1, "A128GCMKW", "A128KW", "oct16_0"), ("jwt_encode", "jwe", 3, "A128GCMKW", "A128KW", "oct16_0")]:
+        for alg, algs in ((a1, [a1, "A128GCM"]), (a2, None), (a1, None)):
+            sp = {"op": op, "alg": alg, "key": k, "pt": "both", "regi": ri, "algs": algs, "rkind": kind}
+            if kind == "jwe":
+                sp["enc"] = "A128GCM"
+            planned.append(sp)
+
+    def rand_reg(spec, kind):
+        spec.pop("reg", None)
+        spec["regi"] = rng.randrange(len(REGS[kind]))
+        spec["algs"] = algs_arg(rng, spec)
+        return spec
     for step in range(n):
         if planned:
             spec = planned.pop(0)
         else:
-            c = rng.randrange(10)
+            c = rng.randrange(12)
             if c < 4 or not pool:
                 alg, kname = rng.choice(JWE_ALGS)
                 enc = rng.choice(JWE_ENCS)
                 if alg == "RSA-OAEP" and rng.random() < 0.7:
                     alg, kname = "A128KW", "oct16_0"
-                spec = {"op": "jwe_enc", "alg": alg, "enc": enc, "key": kname or rng.choice(DIR_KEYS[enc]), "pt": "msg%d" % step,
-                        "reg": rng.choice(REGS_JWE), "extra": rng.choice([{}, {"custom": "v"}, {"custom": "v"}, {"other": "w"}])}
+                spec = rand_reg({"op": "jwe_enc", "alg": alg, "enc": enc, "key": kname or rng.choice(DIR_KEYS[enc]), "pt": "msg%d" % step,
+                                 "extra": rng.choice([{}, {"custom": "v"}, {"custom": "v"}, {"other": "w"}])}, "jwe")
             elif c == 4:
                 enc = rng.choice(JWE_ENCS)
-                spec = {"op": "jwe_enc_json", "alg": "A128KW", "key": "oct16_0", "alg2": "ECDH-ES+A128KW", "key2": "ec0pub", "enc": enc,
-                        "pt": "json%d" % step, "reg": rng.choice(REGS_JWE[3:]), "extra": rng.choice([{}, {"other": "w"}])}
+                spec = rand_reg({"op": "jwe_enc_json", "alg": "A128KW", "key": "oct16_0", "alg2": "ECDH-ES+A128KW", "key2": "ec0pub", "enc": enc,
+                                 "pt": "json%d" % step, "extra": rng.choice([{}, {"other": "w"}])}, "jwe")
             elif c < 7:
                 alg, kname = rng.choice(JWS_ALGS)
                 if alg in ("RS256", "PS256") and rng.random() < 0.7:
                     alg, kname = "HS256", "oct0"
-                spec = {"op": "jws_sign", "alg": alg, "key": kname, "pt": "pay%d" % step, "reg": rng.choice(REGS_JWS),
-                        "extra": rng.choice([{}, {"custom": "v"}, {"other": "w"}]), "b64": rng.choice([None, None, None, False, True])}
+                b64 = rng.choice([None, None, None, False, True])
+                spec = rand_reg({"op": "jws_sign", "alg": alg, "key": kname, "pt": "pay%d" % step,
+                                 "extra": rng.choice([{}, {"custom": "v"}, {"other": "w"}]), "b64": b64}, "jws" if b64 is None else "jws7797")
+            elif c == 7:
+                kind = rng.choice(["jws", "jws", "jwe"])
+                alg, kname = rng.choice([("HS256", "oct0"), ("HS384", "oct1"), ("ES256", "ec0")]) if kind == "jws" else rng.choice([("A128KW", "oct16_0"), ("dir", "oct16_0")])
+                spec = rand_reg(dict({"op": "jwt_encode", "alg": alg, "key": kname, "pt": "sub%d" % step, "rkind": kind},
+                                     **({"enc": "A128GCM"} if kind == "jwe" else {})), kind)
             else:
                 spec = dict(rng.choice(pool))
-                kind = "jwe" if spec["op"].startswith("jwe") else "jws"
-                spec["reg"] = rng.choice(REGS_JWE if kind == "jwe" else REGS_JWS)
+                kind = spec.get("rkind") or ("jwe" if spec["op"].startswith("jwe") else ("jws" if spec.get("b64") is None else "jws7797"))
+                rand_reg(spec, kind)
+                if spec["algs"] is not None and rng.random() < 0.5:
+                    spec["algs"] = list(spec.get("palgs", spec["algs"]))
                 if rng.random() < 0.15:      # a valid token with the wrong key of the same kind
                     spec["key"] = {"oct0": "oct1", "oct1": "oct0", "oct16_0": "oct16_1", "oct16_1": "oct16_0", "ec0": "ec1", "okp": "okp2",
                                    "rsa": "rsa2"}.get(spec["key"], spec["key"])
-        out = exec_spec(spec, specs)
+        out = exec_spec(spec, specs, shared)
         after = deep_snapshot(objs)
         hist.append(spec)
         ctx.note_case(("reg-history", step, json.dumps(spec, sort_keys=True)[:200]))
@@ -1434,7 +1554,7 @@ def registry_histories(ctx, specs, pristine):
         if out["v"] != fresh["v"]:
             ctx.violation({"kind": "verdict-depends-on-history", "op": spec["op"], "here": out["v"][1] if out["v"][0] == "err" else "ok",
                            "first_in_process": fresh["v"][1] if fresh["v"][0] == "err" else "ok"},
-                          "call %s gives %r after %d earlier calls but %r as the first call of a process" % (
+                          "call %s gives %r after %d earlier calls on the shared registries but %r as the first call of a process" % (
                               json.dumps({k: v for k, v in spec.items() if k != "token"}), out["v"], step, fresh["v"]),
                           {"kind": "reg-history", "calls": hist[-12:]})
         if out["token"] is not None:
@@ -1445,9 +1565,96 @@ def registry_histories(ctx, specs, pristine):
                 ctx.violation({"kind": "token-invalid-after-history", "op": spec["op"]},
                               "the token produced by %s (call %d) is opened as %r by a pristine process and as %r here" % (
                                   json.dumps(spec), step, ok1, ok2), {"kind": "reg-history", "calls": hist[-12:]})
-            elif len(pool) < 60:
+            elif len(pool) < 80:
+                o["palgs"] = [a for a in (spec.get("alg"), spec.get("alg2"), spec.get("enc")) if a]
                 pool.append(o)
     return dist, len(objs)
+
+
+def shared_registry_schedules(ctx, specs, pristine):
+    """call A with BOTH registry=R and algorithms= || call B with registry=R only, R one shared object: for every
+    single-preemption schedule (every line of jws.py / jwe.py / jwt.py / the registry modules) both verdicts must be
+    the first-in-process ones; afterwards B, A, B run sequentially again; R is deep-compared"""
+    files = ("jws.py", "jwe.py", "jwt.py", "rfc7515/registry.py", "rfc7516/registry.py", "rfc7797/registry.py", "rfc7797/compact.py",
+             "rfc7515/compact.py", "rfc7516/compact.py", "registry.py")
+    sched = Sched(FileStops(files), timeout=30.0)
+    shared = build_shared()
+    objs = {"caller-registry %s[%d]" % k: r for k, r in shared.items() if r is not None}
+    base = deep_snapshot(objs)
+    P = []
+    for op, kind, ri, a1, a2, k, extra in [
+            ("jws_sign", "jws", 1, "HS384", "HS256", "oct0", {}), ("jws_sign", "jws7797", 1, "HS384", "HS256", "oct0", {"b64": True}),
+            ("jwt_encode", "jws", 2, "HS384", "HS256", "oct0", {"rkind": "jws"}),
+            ("jwe_enc", "jwe", 1, "A128GCMKW", "A128KW", "oct16_0", {"enc": "A128GCM"}),
+            ("jwt_encode", "jwe", 3, "A128GCMKW", "A128KW", "oct16_0", {"enc": "A128GCM", "rkind": "jwe"})]:
+        A = dict({"op": op, "alg": a1, "key": k, "pt": "A", "regi": ri, "algs": [a1, "A128GCM"]}, **extra)
+        B = dict({"op": op, "alg": a2, "key": k, "pt": "B", "regi": ri}, **extra)
+        P.append((op + "/" + kind, A, B))
+        # the consumers of the same entry point family: tokens made by a permissive pristine process
+        ta = pristine.call(dict(A, **{"regi": None, "reg": {"algorithms": [a1, a2, "A128GCM"]}}) if False else
+                           {k2: v for k2, v in dict(A, reg={"algorithms": [a1, a2, "A128GCM"]}, algs=None).items() if k2 != "regi"})
+        tb = pristine.call({k2: v for k2, v in dict(B, reg={"algorithms": [a1, a2, "A128GCM"]}).items() if k2 != "regi"})
+        if ta["token"] is None or tb["token"] is None:
+            raise RuntimeError("shared-registry pair %s: producer fails in the pristine process: %r %r" % (op, ta["v"], tb["v"]))
+        cop = {"jws_sign": "jws_verify", "jwt_encode": "jwt_decode", "jwe_enc": "jwe_dec"}[op]
+        CA = dict({"op": cop, "key": k, "token": ta["token"], "regi": ri, "algs": [a1, "A128GCM"]}, **extra)
+        CB = dict({"op": cop, "key": k, "token": tb["token"], "regi": ri}, **extra)
+        P.append((cop + "/" + kind, CA, CB))
+    stats, nrun = {}, 0
+    for name, A, B in P:
+        want = [pristine.call(A)["v"], pristine.call(B)["v"]]
+        pending = []
+
+        def judge(res, trace, what):
+            for i, (spec, r) in enumerate(zip((A, B), res)):
+                out = r[1] if r[0] == "ok" else {"v": ["err", exn_class(r[1])], "token": None}
+                if out["v"] != want[i]:
+                    ctx.violation({"kind": "shared-registry-" + ("race" if what == "interleaved" else "poisoned"), "entry": name},
+                                  "%s: call %s (%s, algorithms=%r, registry=shared[%d]) %s gives %r but %r as the first call of a process (other call: algorithms=%r on the same registry)" % (
+                                      name, "AB"[i], spec.get("alg") or "token", spec.get("algs"), spec["regi"], what, out["v"], want[i], (A, B)[1 - i].get("algs")),
+                                  {"kind": "reg-schedule", "pair": name, "specs": [{k2: v for k2, v in x.items() if k2 != "token"} for x in (A, B)],
+                                   "schedule": [t for t, _ in trace]})
+                elif out["token"] is not None:
+                    pending.append((open_spec(spec, out["token"]), spec))
+        th = lambda: [lambda: exec_spec(A, specs, shared), lambda: exec_spec(B, specs, shared)]
+        res, trace = sched.run(th(), seg_policy([], False))
+        nrun += 1
+        judge(res, trace, "sequential")
+        cnt = [sum(1 for t, _ in trace if t == i) for i in (0, 1)]
+        seen = set()
+        for first in (0, 1):
+            for i in range(0, cnt[first] + 1):
+                res, trace = sched.run(th(), core_policy(first, i, False))
+                nrun += 1
+                key = tuple(t for t, _ in trace)
+                if key in seen:
+                    continue
+                seen.add(key)
+                ctx.note_case(("reg-sched", name, key))
+                judge(res, trace, "interleaved")
+        for _ in range(ctx.scale(0, 80)):
+            res, trace = sched.run(th(), multi_policy(ctx.rng, ctx.rng.choice([2, 3]), sum(cnt)))
+            nrun += 1
+            judge(res, trace, "interleaved")
+        for spec, i in ((B, 1), (A, 0), (B, 1)):
+            out = exec_spec(spec, specs, shared)
+            r2 = [("ok", {"v": want[0], "token": None}), ("ok", {"v": want[1], "token": None})]
+            r2[i] = ("ok", out)
+            judge(r2, [], "after the concurrent phase, run sequentially again,")
+        if pending:
+            rs = pristine.call({"op": "batch", "specs": [x[0] for x in pending]})["results"]
+            for (o, spec), v1 in zip(pending, rs):
+                if v1 != ["ok", spec["pt"]]:
+                    ctx.violation({"kind": "token-invalid-under-interleaving", "entry": name},
+                                  "%s: a token produced while the registry was shared is opened as %r by a pristine process" % (name, v1),
+                                  {"kind": "reg-schedule", "pair": name})
+        d = diff_snapshot(base, deep_snapshot(objs))
+        if d:
+            ctx.violation({"kind": "shared-object-written", "object": "caller-registry"},
+                          "after the calls of %s the caller's shared registry differs: %r" % (name, d[:3]), {"kind": "reg-schedule", "pair": name})
+            base = deep_snapshot(objs)
+        stats[name] = len(seen)
+    return stats, nrun
 
 
 class FileStops:
@@ -1694,6 +1901,9 @@ def _run(ctx, ok, log, mat, pristine):
     t1 = time.time()
     astats, anrun = singleton_schedules(ctx, runner.specs, pristine)
     t_alg = time.time() - t1
+    t1 = time.time()
+    rstats, rnrun = shared_registry_schedules(ctx, runner.specs, pristine)
+    ctx.coverage["shared_registry_schedules"] = {"distinct_per_pair": rstats, "executed": rnrun, "wall_s": round(time.time() - t1, 1)}
     ctx.coverage["registry_history"] = {"calls": rdist, "shared_objects_deep_compared": nobj2, "wall_s": round(t_reg, 1)}
     ctx.coverage["singleton_schedules"] = {"distinct_per_pair_phase": astats, "executed": anrun, "wall_s": round(t_alg, 1)}
 
